@@ -930,6 +930,16 @@ def memo_rule(ctx: T.Any, rule: str) -> None:
     ctx.visit(memo.fq)
     users = [f.fq for f in prog.all_functions() if any(unparse(d) in ("utils.memo", "memo") for d in getattr(f.node, "decorator_list", []))]
     ctx.floor(rule, "functions behind utils.memo", len(users), 2)
+    # a cached result is handed out again and again: it must not be a mutable container (callers extend pattern lists in place)
+    for fq_ in sorted(users):
+        f_ = prog.function(fq_)
+        ann = unparse(f_.node.returns) if getattr(f_.node, "returns", None) is not None else ""
+        mutable = ann.startswith(("typ.List", "typ.Dict", "typ.Set", "typ.MutableSequence", "typ.MutableMapping", "List[", "Dict[", "Set[", "list", "dict", "set"))
+        builds_list = any(isinstance(r.value, (ast.List, ast.ListComp, ast.Dict, ast.DictComp, ast.Set, ast.SetComp)) for r in walk_no_nested(f_.node) if isinstance(r, ast.Return) and r.value is not None)
+        ctx.check(rule, not mutable and not builds_list, f"{fq_}: the memoised result is not a mutable container",
+                  f"{fq_}: a memoised function hands out one shared mutable container",
+                  f"returns `{ann or 'a container display'}`: every caller gets the same list object; config._compile_file_patterns extends the pattern list of a file in place, "
+                  "so patterns configured for one file are applied to every other file that shares the cached list", loc=f_.loc(), witness={"config": "a glob entry plus an explicit entry for one of the matched files"})
     # delegation to functools is fine as it stands
     rets = [n for n in walk_no_nested(memo.node) if isinstance(n, ast.Return) and n.value is not None]
     if any(isinstance(r.value, ast.Call) and "lru_cache" in unparse(r.value) or "functools.cache" in unparse(r.value) for r in rets):
